@@ -298,8 +298,8 @@ PROPS = {
     "C10": {
         "tags": ['C10', 'C01', 'C02', 'C05', 'C09'],
         "runs": DB_SCN(["reopen-resurrects-pruned-delta", "rollback-all-then-reopen", "rollback-reopen-rollback-reopen"]) + DB_SCRIPT(["script-freelist-reopen"]) + [DB("reopen", 200, 2000, nops=18), DB("reopen", 6, 60, nops=16, big=True, scale=50, shards_q=6), DB("rollback", 60, 600, nops=16), DB("reopen", 80, 800, nops=18, segsize=8192),
-                 CRASH("crash", "reopen", 2, 20, steps=1, shards_q=2), CHURN, dict(ALLOC_LOOKUP), dict(SEGLOG_RUN)],
-        "rule": DB_RULE + ALLOC_LOOKUP_RULE + " C10 focus: the handle is dropped and reopened (with an independently drawn runtime configuration: workers, cache sizes, io workers, warm-up, prepopulation, upper levels) at random positions, up to half of all steps; after every reopen root, sync_seqn, sampled values, hash_table_utilization().occupied (must equal the pre-close value) and all later commits / rollbacks are compared with a model that ignores close/open.",
+                 CRASH("crash", "reopen", 2, 20, steps=1, shards_q=2), CHURN, dict(ALLOC_LOOKUP), dict(SEGLOG_RUN), dict(ALLOC_FL)],
+        "rule": DB_RULE + ALLOC_LOOKUP_RULE + " alloc-freelist (hook H14): after every sync of the real FreeList the pages written so far are put into a scratch file and read back by the REAL FreeList::read from the new head: portions (order included) and the cached length must equal those of the running handle (counters fl_read_back / fl_read_back_multi_page)." + " C10 focus: the handle is dropped and reopened (with an independently drawn runtime configuration: workers, cache sizes, io workers, warm-up, prepopulation, upper levels) at random positions, up to half of all steps; after every reopen root, sync_seqn, sampled values, hash_table_utilization().occupied (must equal the pre-close value) and all later commits / rollbacks are compared with a model that ignores close/open.",
         "trusted_base": API_TB, "assumptions": API_ASSUME + ["open retried for up to 5 s when the old handle's directory lock is still held by a background thread (that delay is C20's subject)"],
     },
     "C13": {
